@@ -83,7 +83,7 @@ TMultiItem ==
             /\ IF marm[r.d] = "term" THEN MultiResubmit(r.d)
                ELSE IF r.k > 0 THEN KernelPrefetch(r.d, r.k) ELSE KernelTerminate(r.d, TRUE)
        ELSE /\ Eat
-            /\ MultiNext(r.d, IF drv = "poll" /\ r.anc /\ DevPollMultiLen THEN r.lost ELSE r.k)
+            /\ MultiNext(r.d, IF r.lost > 0 THEN r.lost ELSE r.k, r.lost > 0)
             /\ ret'.k = r.k /\ ret'.runs = r.runs /\ ret'.end = r.end
 
 (* the multishot terminated because the pool had no buffer; it is submitted again later *)
@@ -193,7 +193,7 @@ TDgMultiItem ==
   /\ IF drv = "iour" /\ dmq[r.p] = <<>>
        THEN DgKernelPrefetch(r.p) /\ Silent
        ELSE /\ Eat
-            /\ DgMultiNext(r.p, r.cap, r.wsrc, r.wfl, r.own)
+            /\ \E ll \in BOOLEAN : DgMultiNext(r.p, r.cap, r.wsrc, r.wfl, r.own, ll)
             /\ DgSame /\ ret'.end = r.end
 
 (* the stream is dropped; how many datagrams had completed into the operation and are gone with it
